@@ -192,6 +192,8 @@ class Library:
         return Arr(z3.Lambda([j], e), n)
 
     def neg(self, ex, a):
+        if hasattr(a, "pyvc_neg"):
+            return a.pyvc_neg(ex)
         if isinstance(a, Arr):
             j = z3.Int("j!ew")
             return Arr(z3.Lambda([j], -z3.Select(a.a, j)), a.n)
@@ -216,6 +218,10 @@ class Library:
             else:
                 r = a is b or (type(a) == type(b) and isinstance(a, (bool, int, str, type(None))) and a == b)
             return r if isinstance(op, ast.Is) else (not r)
+        if hasattr(a, "pyvc_compare"):
+            return a.pyvc_compare(ex, op, b, False)
+        if hasattr(b, "pyvc_compare") and not isinstance(op, (ast.In, ast.NotIn)):
+            return b.pyvc_compare(ex, op, a, True)
         if isinstance(op, (ast.In, ast.NotIn)):
             r = self.contains(ex, b, a, node)
             if isinstance(op, ast.In):
@@ -319,6 +325,8 @@ class Library:
                 return lambda ex_, x: o.add(ex_.key(x) if not isinstance(x, tuple) else x)
             if attr == "copy":
                 return lambda ex_: set(o)
+            if attr == "update":
+                return lambda ex_, *its: [o.add(ex_.key(x) if not isinstance(x, tuple) else x) for it in its for x in ex_.concrete_iter(it)] and None
         if isinstance(o, tuple) and attr in ("index", "count"):
             return lambda ex_, x: getattr(o, attr)(x)
         if isinstance(o, str):
@@ -500,6 +508,8 @@ class Library:
         return Arr(z3.Lambda([j], z3.Select(o.a, j + a)), z3.If(b < a, 0, b - a))
 
     def setitem(self, ex, o, i, v, node):
+        if hasattr(o, "pyvc_setitem"):
+            return o.pyvc_setitem(ex, i, v)
         raise Unsupported(f"subscript assignment on {type(o).__name__}")
 
     # ---- deque / list / dict methods ------------------------------------------------------------
